@@ -504,7 +504,7 @@ TrABegin ==
 
 TopB == CHOOSE b \in DOMAIN dsp : dsp[b].mode = "async"
 \* every ordinary system of every issued dispatch has finished and none is running
-AllComplete == /\ asy.started = asy.issued
+AllComplete == /\ (asy.started = asy.issued \/ PlainOf(TopB) = {})     \* (a plan without ordinary systems has nothing to start)
                /\ \A x \in Sys : st[x] # "run"
                /\ \A x \in PlainOf(TopB) : st[x] = (IF asy.issued = 0 THEN "idle" ELSE "done")
                /\ \A x \in PlainOf(TopB) : runs[x] = asy.issued
